@@ -1,5 +1,5 @@
 (* C10 — emission and distribution can never halt the chain. *)
-From C4E Require Import Base Minter MinterProofs MinterWalk Distributor DistrCoins DistrProofs Genesis.
+From C4E Require Import Base Minter MinterProofs MinterWalk Distributor DistrCoins DistrProofs Genesis Books.
 Open Scope Z_scope.
 
 (* minter: for every configuration accepted by validation (linear periods of at least a millisecond,
@@ -43,6 +43,21 @@ Print Assumptions C10_update_params_keeps_current_period.
 (* distributor: one StartDistributionProcess with validated shares, an all-positive inflow and states
    that all carry an account never panics, and leaves states that all carry an account; neither do the
    end-of-block payouts, whatever transfers fail *)
+(* distributor, whole block: in every world satisfying the invariant of C03 (configuration outside K1 /
+   K2, books not exceeding the main balance) BeginBlock returns — never panics, never fails — whatever
+   bank calls fail, and the invariant holds again afterwards, so this is true of every later block too *)
+Theorem C10_distributor_block_never_panics :
+  forall (bk : Z) (Known : dacct -> Prop),
+  (forall a, Known a -> da_key a <> bk) ->
+  (forall a a', Known a -> Known a' -> da_key a = da_key a' -> da_id a = da_id a') ->
+  forall w faults, winv bk Known w ->
+  exists w' evs n, dist_begin_block w faults = Ok (w', evs, n) /\ winv bk Known w'.
+Proof.
+  intros bk Known H1 H2 w faults Hw.
+  destruct (block_keeps_books bk Known H1 H2 w faults Hw) as (w' & evs & n & E & Hw' & _). eauto.
+Qed.
+Print Assumptions C10_distributor_block_never_panics.
+
 Theorem C10_distribution_never_panics :
   forall sd inflow sts bk,
   dc_wf inflow -> dc_all_positive inflow = true ->
